@@ -228,3 +228,26 @@ PROPS["C04"] = dict(
         seeded("bytes", "wire", "^TestC04Bytes$", 3000 if tier == "quick" else 50000, 1 if tier == "quick" else 4, timeout=1800),
     ] + ([seeded("splitsweep", "wire", "^TestC04SplitSweep$", 1, 1, timeout=3000)] if tier == "thorough" else []),
 )
+
+PROPS["C05"] = dict(
+    title="Stream descriptions survive the SDP round trip",
+    pkg="sdpx",
+    rule=("(forward) rapid-generated descriptions: 1..6 medias x 1..4 formats drawn from all 22 format types with valid parameters (static vs "
+          "dynamic payload types per type, optional pointer fields present/absent, sample rates and channel counts from the allowed sets and "
+          "arbitrary 1..2^31-1, H264 SPS / H265 SPS+PPS from validated pools with validity-preserving mutations, AudioSpecificConfig / "
+          "StreamMuxConfig canonicalised through mediacommon, MPEG-4 video and Vorbis blobs, Generic with arbitrary rtpmap / fmtp), media ids "
+          "all-or-none incl. non-ASCII letters, back channels, SAVP, control attributes of six styles, FEC groups, MIKEY at session and "
+          "media level, titles: parse(marshal(d)) == d through title/type/id/back-channel/profile/control/key-mgmt and per format Go type, "
+          "PayloadType, ClockRate, RTPMap, FMTP plus exported-field deep equality; (reverse) arbitrary strings, mutated marshalled "
+          "descriptions and line soups from an SDP vocabulary: never a panic, and whatever is accepted re-marshals and re-parses to an equal "
+          "value. Non-trivial: forward with >=2 medias or >=2 formats in a media and >=1 optional field; reverse inputs the parser accepts. "
+          "Distinct by case hash."),
+    assumptions=[
+        "codec blobs come from validated families (pools + validity-preserving mutations), not from all valid bitstreams",
+        "Multicast is write-only by design and not compared; descriptions whose medias are all back channels are outside the forward generator",
+    ],
+    jobs=lambda tier: [
+        seeded("forward", "sdpx", "^TestC05Forward$", 4000 if tier == "quick" else 50000, 1 if tier == "quick" else 8, timeout=1800),
+        seeded("reverse", "sdpx", "^TestC05Reverse$", 8000 if tier == "quick" else 100000, 1 if tier == "quick" else 8, timeout=1800),
+    ],
+)
